@@ -306,7 +306,7 @@ ADDENDA = {
     "C02": {"text": " Added: Properties/C02Rest.lean — the docstring layer, so far a parameter, is instantiated by the character-level ReST model of C01 (restEnv): on the decidable "
                     "region InRest the four round-trip theorems hold with no hypothesis about the docstring layer (CPython's expression parser stays a parameter)." + _CONSTS,
             "note": " Outside InRest (Google/NumPy styles, emit_default_doc=True, multi-line headers, class return entries) the docstring layer remains a parameter whose answers the "
-                    "harness evaluates per case; the composed model was compared with the real emitter/readers by hand only."},
+                    "harness evaluates per case; the composed model's emitter is compared with the real one on every run, its readers were compared by hand only."},
     "C03": {"text": " Added: closure of the region under hops is reduced to the docstring layer (C08Iface.hop_keeps_inD02 proved, residue DocLayerStable shown necessary) and discharged "
                     "for the concrete ReST layer on DomR (C02Rest.C03Rest_chain: every chain of class / pydantic / function / argparse hops of any length succeeds and preserves the view; "
                     "only hypothesis: the expression parser rejects code-quoted text)." + _CONSTS, "note": ""},
